@@ -508,6 +508,15 @@ end
 /-- `serialize_default` -/
 def pushDefault (b : B) : R B := pushDefaultK b 1
 
+/-- `ArrayBuilder::is_nullable` (moved here from Finish.lean: `DictionaryUtf8Builder::serialize_none` asks its key builder) -/
+def B.isNullable : B → Bool
+  | .null _ _ => true
+  | .unknownVariant _ => false
+  | .leaf _ _ v _ | .bytes _ _ v _ _ | .bytesView _ _ v _ _ | .fixedSizeBinary _ _ _ v _ _
+  | .list _ _ _ v _ _ | .fixedSizeList _ _ _ _ v _ _ | .map _ _ v _ _ _ | .struct _ _ v _ _ _ _ => v.isSome
+  | .dictionary _ idx _ _ => idx.isNullable
+  | .union _ _ _ _ _ => false
+
 /-- `serialize_none` (and `serialize_unit`, which forwards to it) -/
 def pushNone : B → R B
   | .null p len => .ok (.null p (len + 1))
@@ -541,9 +550,13 @@ def pushNone : B → R B
       let v' ← setValidity v len false
       let fs' ← pushDefaultKAll fs 1
       pure (.struct p (len + 1) v' fs' cached next seen))
-  | b@(.dictionary p idx vals index) => ctx b.ann (do
-      let idx' ← ctx b.ann (pushNone idx)
-      pure (.dictionary p idx' vals index))
+  | b@(.dictionary p idx vals index) => ctx b.ann (
+      -- repo fix fb17fd2: the dictionary builder itself refuses a null for a non-nullable field (before, the key
+      -- builder did, under `{path}.key` / its integer type)
+      if idx.isNullable = false then fail "Cannot push null for non-nullable array"
+      else do
+        let idx' ← ctx b.ann (pushNone idx)
+        pure (.dictionary p idx' vals index))
   | b@(.union _ _ _ _ _) => ctx b.ann (fail "serialize_unit/serialize_none is not supported")
 
 end SaModel.Build
